@@ -140,6 +140,11 @@ def gen_cases(ctx):
         # no raw custom SQL / custom keywords, so that depth-0 keywords are the renderer's own
         g = gen_sql.Gen(rng, b, max_depth=rng.choice([1, 2, 2]), no_marks=True, parseable=True, allow_panic=False)
         q = g.query(rng.choice([1, 2]), allow_with=False)
+        if rng.random() < 0.08:
+            # recursive WITH with SEARCH / CYCLE options attached to a select
+            opts = rng.choice(["(search breadth (col 61) 6f)", "(cycle (col 61) 6b 70)",
+                               "(search depth (col 61) 6f) (cycle (col 61) 6b 70)"])
+            q = "(select (col (col 61)) (from (t 77)) (with (recursive) (cte 77 (cols 61) (select (col (col 61)) (from (t 74)))) %s))" % opts
         kinds[q[1:7]] = kinds.get(q[1:7], 0) + 1
         lines.append("stmt %s %s" % (b, q))
     ctx.cov["distribution"] = {"kinds": kinds}
@@ -183,6 +188,24 @@ def batch_oracle(ctx, lines, impl):
                 tag = ""   # something besides the window clause is wrong
             verdicts[i] = tag + "clauses rendered at top level are %s, the grammar of %s requires %s for the clauses given" % (got, b, want)
             continue
+        # recursive-query options inside the WITH clause (Postgres only): each given option exactly once
+        withs = [c for c in prog[1:] if isinstance(c, list) and c and c[0] == "with"]
+        if prog[0] == "withq":
+            withs = [prog[1]]
+        for w in withs:
+            rec = any(isinstance(x, list) and x[0] == "recursive" for x in w[1:])
+            for opt in ("SEARCH", "CYCLE"):
+                given = 1 if (rec and b == "pg" and any(isinstance(x, list) and x[0] == opt.lower() for x in w[1:])) else 0
+                d0, cnt = 0, 0
+                for t in tl:
+                    if t == ("C", "("):
+                        d0 += 1
+                    elif t == ("C", ")"):
+                        d0 -= 1
+                    elif d0 == 0 and t == ("W", opt):
+                        cnt += 1
+                if cnt != given and verdicts[i] is None:
+                    verdicts[i] = "%s given %d time(s) in the WITH clause but rendered %d time(s) on %s" % (opt, given, cnt, b)
         # dialect-specific constructs only in their own dialect (keywords outside literals/identifiers)
         text = " ".join(t[1] for t in tl if t[0] in "WOC")
         text = text.replace("( ", "(")
